@@ -2377,30 +2377,52 @@ pipeline TOP(
 call TOP()
 `
 
-func vrConstGraph() *vrReal {
+type vrConst struct {
+	*vrReal
+	h *Node
+}
+
+func vrConstGraph(passThrough bool) *vrConst {
 	disableUniquification = false
-	return verifCached("vrConstGraph", func() any {
+	key := "vrConstGraph"
+	if passThrough {
+		key = "vrConstGraphPass"
+	}
+	return verifCached(key, func() any {
 		rt := &Runtime{Config: &RuntimeOptions{JobMode: "local", VdrMode: VdrDisable}, mrjob: "/m/mrjob", adaptersPath: "/m/adapters"}
-		_, _, ps, err := rt.instantiatePipeline([]byte(vrConstSrc), "/m/p.mro", "ps", "/ps", nil, "none", nil, false, true, context.Background())
+		src := vrConstSrc
+		if passThrough {
+			// the value handed through comes from another stage
+			src = strings.Replace(src, "        k = 5,\n", "        k = H.val,\n", 1)
+			src = strings.Replace(src, "    call MAKE()\n", "    call MAKE()\n\n    call H()\n", 1)
+			src = strings.Replace(src, "stage S(", "stage H(\n    out int val,\n    src comp \"h\",\n)\n\nstage S(", 1)
+		}
+		_, _, ps, err := rt.instantiatePipeline([]byte(src), "/m/p.mro", "ps", "/ps", nil, "none", nil, false, true, context.Background())
 		if err != nil {
 			panic("fixture does not instantiate: " + err.Error())
 		}
 		n := func(name string) *Node { return ps.node.top.allNodes["ID.ps.TOP."+name] }
-		return &vrReal{ps, n("MAKE"), n("P.S"), n("USE")}
-	}).(*vrReal)
+		return &vrConst{&vrReal{ps, n("MAKE"), n("P.S"), n("USE")}, n("H")}
+	}).(*vrConst)
 }
 
-// H_C01_constFromMapped(n): a pipeline mapped over an array of n elements a
-// stage produced returns, beside a stage output, a constant it was given; a
-// consumer binds the collected constants.
+// H_C01_constFromMapped(n, pass): a pipeline mapped over an array of n elements
+// a stage produced returns, beside a stage output, a value it was given - a
+// constant (pass = 0) or the output of an unrelated stage (pass = 1); a
+// consumer binds the collected values.
 //
 //	C02: the consumer waits for the stage which determines how many there are.
 //	C01: it receives the constant once per element (null or an empty array for
 //	     none), and so does the top-level output.
-func H_C01_constFromMapped(n int) {
-	w := vrConstGraph()
+func H_C01_constFromMapped(n, pass int) {
+	w := vrConstGraph(pass != 0)
 	use := w.sum
 	vrOuts = map[*Metadata]LazyArgumentMap{}
+	kv := json.RawMessage("5")
+	if pass != 0 {
+		kv = vrDigit("handed through")
+		vrOuts[w.h.forks[0].metadata] = LazyArgumentMap{"val": kv}
+	}
 	_, waits := use.prenodes[w.gen.GetFQName()]
 	verifCover("consumer of a constant collected from a mapped call")
 	verifAssert(waits, "C01/C02: a consumer of values collected from a mapped call waits for the stage which determines their number")
@@ -2408,7 +2430,7 @@ func H_C01_constFromMapped(n int) {
 	ks := make([]json.RawMessage, n)
 	for i := range xs {
 		xs[i] = vrDigit("element")
-		ks[i] = json.RawMessage("5")
+		ks[i] = kv
 	}
 	vrOuts[w.gen.forks[0].metadata] = LazyArgumentMap{"list": vrArray(xs)}
 	w.work.expandForks(true)
